@@ -21,27 +21,26 @@ uint8_t nondet_uint8_t(void);
 static void
 aws_log_call(int kind, const uint8_t * K, size_t Klen, const uint8_t * in, size_t len, uint8_t digest[32])
 {
-	struct aws_hcall * e;
+	struct aws_hcall e;	/* local, copied to the log in one assignment (one DFCC write check instead of one per byte) */
 	size_t i;
-	(void)&i;
 
 	AWS_BOUND(g_aws_n < AWS_LOG_N, "more than AWS_LOG_N hash calls");
 	AWS_BOUND(Klen <= AWS_KMAX, "key longer than AWS_KMAX");
 	AWS_BOUND(len <= AWS_MMAX, "message longer than AWS_MMAX");
-	e = &g_aws_log[g_aws_n];
-	e->kind = kind;
-	e->kptr = K;
-	e->klen = Klen;
+	e.kind = kind;
+	e.kptr = K;
+	e.klen = Klen;
 	for (i = 0; i < AWS_KMAX; i++)
-		e->key[i] = (i < Klen) ? K[i] : 0;
-	e->mptr = in;
-	e->mlen = len;
+		e.key[i] = (i < Klen) ? K[i] : 0;
+	e.mptr = in;
+	e.mlen = len;
 	for (i = 0; i < AWS_MMAX; i++)
-		e->msg[i] = (i < len) ? in[i] : 0;
+		e.msg[i] = (i < len) ? in[i] : 0;
 	for (i = 0; i < 32; i++) {
-		e->out[i] = nondet_uint8_t();
-		digest[i] = e->out[i];
+		e.out[i] = nondet_uint8_t();
+		digest[i] = e.out[i];
 	}
+	g_aws_log[g_aws_n] = e;
 	g_aws_n++;
 }
 
